@@ -390,12 +390,37 @@ fn history(seed: u64, idx: u64, plan: &Plan, stats: &mut Vec<(String, usize)>) {
 }
 
 fn finish(mut w: World, mut rec: Rec, mut r: Rng, stats: &mut Vec<(String, usize)>) {
-    // phase 2: finish the scan, set the tip, compare with a linear scan by a fresh wallet
+    // phase 2: finish the scan, set the tip, compare with a linear scan by a fresh wallet.
+    // If the wallet still holds blocks of an abandoned branch (a rewind was rejected, or the
+    // branch was scanned without rewinding), first rewind below the lowest stale block, as a
+    // caller handling the reorg would.
     let mut fin = 12usize;
+    for _ in 0..3 {
+        let d = w.dump();
+        let stale = d.blocks.iter().find(|(h, x)| w.block(*h).map(|b| b.hash) != Some(*x)).map(|b| b.0);
+        match stale {
+            None => break,
+            Some(m) => {
+                let below: Vec<u32> = d.blocks.iter().map(|b| b.0).filter(|h| *h < m).collect();
+                match below.last() {
+                    Some(h) => {
+                        do_trunc(&mut w, &mut rec, *h);
+                    }
+                    None => break,
+                }
+            }
+        }
+    }
     let done = complete(&mut w, &mut rec, &mut r, &mut fin);
     let top = w.tip_height();
     do_tip(&mut w, &mut rec, top);
-    let lin = if done {
+    // "every block up to the tip has been scanned": the wallet holds exactly the blocks of the
+    // best chain (same hashes) and its tip is the chain tip
+    let d = w.dump();
+    let on_chain = d.blocks.len() == w.chain.len()
+        && d.blocks.iter().all(|(h, x)| w.block(*h).map(|b| b.hash) == Some(*x))
+        && d.tip == Some(top);
+    let lin = if done && on_chain {
         let mut fresh = w.fresh_wallet();
         let res = w.scan_into(&mut fresh, BASE, w.chain.len());
         if matches!(res, OpResult::Ok) {
